@@ -112,15 +112,22 @@ class Bus:
         for n in self.nodes:
             if n is src:
                 continue
-            if self.zero_prob and n.last_delivery <= sim.now and self.rng.random() < self.zero_prob:
+            # (while a receive handler is suspended in favour of a woken thread nothing is delivered re-entrantly: the receiver's own receive
+            #  thread may be the suspended one, and a stack has only one)
+            if self.zero_prob and not sim.eager_depth and not n.pending and n.last_delivery <= sim.now and self.rng.random() < self.zero_prob:
                 n.last_delivery = sim.now
                 self.deliver(n, fr)
             else:
                 lat = self.rng.uniform(*self.latency)
                 t = max(sim.now + lat, n.last_delivery + 1e-7)
                 n.last_delivery = t
-                sim.at(t, self.deliver, n, fr)
+                n.pending += 1
+                sim.at(t, self.deliver_later, n, fr)
         return fr
+
+    def deliver_later(self, node, fr):
+        node.pending -= 1
+        self.deliver(node, fr)
 
     def deliver(self, node, fr):
         self.delivered.append((self.sim.now, node.name, fr.idx))
@@ -147,6 +154,7 @@ class StackNode:
     def __init__(self, bus, name, j1939, dll='j1939-21', **kw):
         self.name = name
         self.last_delivery = 0.0
+        self.pending = 0            # deliveries scheduled but not yet made (a later frame must not overtake them)
         self.j1939 = j1939
         self.notify_exc = collections.Counter()    # exceptions raised by ecu.notify (contained by the listener)
         self.notify_exc_samples = []
@@ -240,6 +248,7 @@ class ScriptNode:
     def __init__(self, bus, name):
         self.name = name
         self.last_delivery = 0.0
+        self.pending = 0            # deliveries scheduled but not yet made (a later frame must not overtake them)
         self.seen = []
         bus.add(self)
 
